@@ -56,3 +56,24 @@ Proof.
     induction sched as [|w sched IH]; cbn; intros t Ht; [exact Ht|]. apply IH. apply spent_step. exact Ht. }
   destruct Hs as (_ & Ho & Hw & _). unfold slices. rewrite Ho, Hw. split; reflexivity.
 Qed.
+
+(* ---------- results kept by the caller across later calls (aliasing) ---------- *)
+(* copy semantics (`return _res.copy()`): call j hands out its own buffer j, written by call j only; what the caller reads
+   from the handle of call j after the whole history: *)
+Definition history_copy {V} (d : V) (calls : list (call V)) : list (list V) := map (call_mp d) calls.
+
+Lemma kept_results_copy {V} (d : V) (calls : list (call V)) : Forall call_ok calls ->
+  forall j k, nth_error calls j = Some k -> nth_error (history_copy d calls) j = Some (call_sp k).
+Proof.
+  intros Hok j k Hj. unfold history_copy. rewrite (fresh_per_call d calls Hok).
+  rewrite nth_error_map, Hj. reflexivity.
+Qed.
+
+(* the alternative: result buffers cached on the object per number of rows and handed out as views; the handle of call j
+   is the key n_j, every call with that key writes the same buffer *)
+Definition buffers (V : Type) := Z -> option (list V).
+Definition history_cached {V} (d : V) (calls : list (call V)) : buffers V :=
+  fold_left (fun (st : buffers V) (k : call V) =>
+               let '(c, _, _, _) := k in fun key => if key =? n c then Some (call_mp d k) else st key)
+            calls (fun _ => None).
+Definition handle {V} (k : call V) : Z := let '(c, _, _, _) := k in n c.
